@@ -352,6 +352,18 @@ pub fn run(tier: &str, seed: u64) -> i32 {
     for st in crate::checks::families::generic_and_family_stats("C02", thorough, seed, false, &|c, ctx| check_case(c, ctx)) {
         report.add(st);
     }
+    // D-graph: cyclic type graphs (every cycle must keep its heap indirection)
+    let g = crate::graph::quick_graph(if thorough { 3 } else { 2 });
+    let budget = Budget {
+        max_depth: g.max_edges as u32,
+        wall: Duration::from_secs(if thorough { 900 } else { 40 }),
+        max_states: 5_000_000,
+    };
+    report.add(explore(&g, &budget, seed, |s, ctx| {
+        let mut spec = SettingsSpec::faithful();
+        spec.root = "root".into();
+        check_case(&Case::new(RegSrc::Prog(s.program()), spec, "D-graph"), ctx);
+    }));
     // D-chain
     let mut chain: Vec<Case> = vec![];
     for (sname, spec) in &settings {
